@@ -27,13 +27,7 @@ def run(F, rep, tier):
     # positive controls: the inventory is not vacuous and the termination classifier can say "no"
     import json, os, tempfile, tir
     r2 = common.Report("ctl", "quick")
-    empty = os.path.join(safety.VERIF, "rules", "_empty_invariants.json")
-    with open(empty, "w") as fh:
-        json.dump({"invariants": []}, fh)
-    try:
-        safety.panic_inventory(F, G, r2, ENTRIES, "_empty_invariants.json", M=M, gate_ok=gate_ok)
-    finally:
-        os.unlink(empty)
+    safety.panic_inventory(F, G, r2, ENTRIES, {}, M=M, gate_ok=gate_ok)      # no invariant table at all
     rep.control("without the invariant table exactly the class-I sites are reported", len(r2.violations) == rep.counts.get("P.I", -1) and len(r2.violations) > 0)
     r3 = common.Report("ctl", "quick")
     safety.panic_inventory(F, G, r3, ENTRIES, "c06_invariants.json", M=M, gate_ok={})
